@@ -265,6 +265,9 @@ type retPoint struct {
 }
 
 type Engine struct {
+	wireEach    *Closure // predicate every sent frame must satisfy (vWireEach of the harness under verification)
+	inWireEach  bool
+	strKeysUsed bool // a string-keyed map was accessed: string equality is tied to the key identity
 	prog      *ssa.Program
 	pkgs      map[string]*ssa.Package
 	obls      []*Obligation
@@ -1060,7 +1063,12 @@ func (e *Engine) equal(fr *Frame, st *State, x, y Value, tx, ty types.Type) *Ter
 		return FreshVar("ptreq", BoolSort)
 	case *types.Basic:
 		if u.Info()&types.IsString != 0 {
-			return e.strEq(st, x.T, y.T)
+			eq := e.strEq(st, x.T, y.T)
+			if !eq.IsConst() && e.strKeysUsed {
+				// the key identity used for string-keyed maps is injective on string values
+				st.assume(Eq(eq, Eq(e.strID(st, x.T), e.strID(st, y.T))))
+			}
+			return eq
 		}
 		if u.Info()&types.IsFloat != 0 {
 			return FreshVar("feq", BoolSort)
